@@ -79,11 +79,17 @@ func main() {
 	timeout := flag.Int("timeout", 0, "per-obligation solver timeout (s)")
 	workers := flag.Int("j", 12, "parallel obligations")
 	dump := flag.Bool("dump", false, "keep smt files")
+	onlyF := flag.String("only", "", "with -property: restrict to one function, \"pkg::key\" (used by the mutation sweep); prints ONLY-RESULT and writes nothing")
 	flag.Parse()
 	if *timeout == 0 {
 		*timeout = 10
 		if *tier == "thorough" {
 			*timeout = 60
+		}
+	}
+	for _, f := range loadFindings(filepath.Join(*verif, "known_findings.jsonl")) {
+		if f.Status == "known" {
+			knownPostFindings[f.Obligation] = true
 		}
 	}
 	ld := NewLoader(*root, filepath.Join(*verif, "contracts"))
@@ -94,6 +100,7 @@ func main() {
 		fmt.Println("smt dir:", dir)
 	}
 	if *prop != "" {
+		onlyFunc = *onlyF
 		code := runProperty(ld, *verif, *prop, *tier, dir, *timeout, *workers)
 		os.RemoveAll(dir)
 		os.Exit(code)
@@ -151,6 +158,9 @@ func main() {
 	}
 }
 
+// onlyFunc ("pkg::key") restricts runProperty to one function (mutation sweep).
+var onlyFunc string
+
 func oblOK(o *Obligation) bool {
 	if o.Cover {
 		return o.Status != "unsat" && o.Status != "error"
@@ -179,6 +189,7 @@ func runProperty(ld *Loader, verif, prop, tier, dir string, timeout, workers int
 		return 2
 	}
 	sels := def.Select
+	crossCheck = tier == "thorough" && onlyFunc == ""
 	if tier == "thorough" {
 		sels = append(sels, def.Thorough...)
 	}
@@ -193,10 +204,24 @@ func runProperty(ld *Loader, verif, prop, tier, dir string, timeout, workers int
 	notRe := map[*FuncResult][]*regexp.Regexp{}
 	seen := map[string]*FuncResult{}
 	csrc := map[string]string{}
+	var sweepTargets []sweepTarget
+	sweepSeen := map[string]bool{}
 	var assumptions []string
 	for _, s := range sels {
+		onlyPkg, onlyKey := "", ""
+		if onlyFunc != "" {
+			parts := strings.SplitN(onlyFunc, "::", 2)
+			onlyPkg, onlyKey = parts[0], parts[1]
+			if s.Pkg != onlyPkg {
+				continue
+			}
+		}
 		p, err := ld.Load(modPath + "/" + s.Pkg)
 		if err != nil {
+			if onlyFunc != "" {
+				fmt.Printf("ONLY-RESULT status=invalid %v\n", err)
+				return 0
+			}
 			fmt.Fprintf(os.Stderr, "govc: cannot load %s: %v\n", s.Pkg, err)
 			return 2
 		}
@@ -232,20 +257,32 @@ func runProperty(ld *Loader, verif, prop, tier, dir string, timeout, workers int
 		}
 		matched := 0
 		for _, key := range p.Contracts.Order {
+			if onlyFunc != "" && key != onlyKey {
+				continue
+			}
 			if fre.MatchString(key) {
 				key := key
 				matched++
 				add(key, func() *FuncResult { return VerifyFunc(ld, p, key) })
+				if ct := p.Contracts.Funcs[key]; ct != nil && !ct.Trusted && !ct.Havoc && !ct.Inline && s.Kinds == "" && s.Names == "" {
+					if fd := p.FindFunc(key); fd != nil && fd.Body != nil && !sweepSeen[s.Pkg+"::"+key] {
+						sweepSeen[s.Pkg+"::"+key] = true
+						sweepTargets = append(sweepTargets, sweepTarget{p, key})
+					}
+				}
 			}
 		}
 		for _, lm := range p.Contracts.Lemmas {
+			if onlyFunc != "" {
+				continue
+			}
 			if fre.MatchString("lemma:" + lm.Name) {
 				lm := lm
 				matched++
 				add("lemma:"+lm.Name, func() *FuncResult { return VerifyLemma(ld, p, lm) })
 			}
 		}
-		if matched == 0 {
+		if matched == 0 && onlyFunc == "" {
 			fmt.Fprintf(os.Stderr, "govc: selector %s %q matches no contract\n", s.Pkg, s.Funcs)
 			return 2
 		}
@@ -340,6 +377,15 @@ func runProperty(ld *Loader, verif, prop, tier, dir string, timeout, workers int
 		ev.Solvers = strings.Join(sl, ",")
 		fns = append(fns, ev)
 	}
+	if onlyFunc != "" {
+		var names []string
+		for _, o := range violations {
+			names = append(names, o.Name)
+		}
+		sort.Strings(names)
+		fmt.Printf("ONLY-RESULT obligations=%d failed=%d names=%s\n", total, len(violations), strings.Join(names, ","))
+		return 0
+	}
 	for _, f := range knownHit {
 		fmt.Printf("KNOWN-FINDING: property=%s %s: %s\n", prop, f.Obligation, f.WhatFails)
 	}
@@ -410,6 +456,11 @@ func runProperty(ld *Loader, verif, prop, tier, dir string, timeout, workers int
 	for _, f := range knownHit {
 		kf = append(kf, f.Obligation+": "+f.WhatFails)
 	}
+	var sweep map[string]interface{}
+	if tier == "thorough" && len(violations) == 0 && boundedFailures == 0 && os.Getenv("GOVC_NO_MUTATION") == "" {
+		sweep = mutationSweep(ld, verif, prop, sweepTargets, int64(seed), 2, 160, 8)
+		fmt.Printf("%s thorough: mutation sweep: %v mutants run, %v killed, %v survived, %v not compiling\n", prop, sweep["mutants_run"], sweep["killed"], sweep["survived"], sweep["not_compiling"])
+	}
 	absLoops, absCalls := []string{}, []string{}
 	seenAbs := map[string]bool{}
 	for _, fr := range results {
@@ -449,6 +500,8 @@ func runProperty(ld *Loader, verif, prop, tier, dir string, timeout, workers int
 			"known_findings":                   kf,
 			"bounded":                          boundedEv,
 			"undecided_clauses":                def.Undecided,
+			"mutation_sweep":                   sweep,
+			"cross_checked":                    crossStats(),
 			"loops_cut_without_invariant":      absLoops,
 			"calls_abstracted_by_effect_havoc": absCalls,
 			"contract_sources":                 srcs,
